@@ -292,7 +292,22 @@ def run_stream(ctx, n, only=None):
             else:  # triangle
                 v = nps.uniform(-1, 1, (3, 3)) * sc
                 p = nps.uniform(-1, 1, 3)
-                x = v.mean(axis=0) + nps.uniform(-1, 1, 3) * sc * 10 ** nps.uniform(-1.5, 1.5)
+                k = rng.random()
+                if k < 0.45:  # generic observer
+                    x = v.mean(axis=0) + nps.uniform(-1, 1, 3) * sc * 10 ** nps.uniform(-1.5, 1.5)
+                elif k < 0.75:  # the sub-branches of the repaired edge integral: beyond the end / behind the start / alongside an edge, close to its line
+                    e = rng.randrange(3)
+                    d = 10 ** nps.uniform(-9, 0)
+                    t = rng.choice([1 + d, -d, d, 1 - d, nps.uniform(0.05, 0.95), nps.uniform(1.2, 3), nps.uniform(-2, -0.2)])
+                    x = v[e] + t * (v[(e + 1) % 3] - v[e]) + nps.uniform(-1, 1, 3) * sc * 10 ** nps.uniform(-12, -1.5)
+                elif k < 0.9:  # axis-aligned, observer exactly on an edge line: on-edge branch, either extension, a vertex
+                    a, b = (float(q) for q in nps.integers(1, 6, 2))
+                    v = np.array([[0, 0, 0], [a, 0, 0], [0, b, 0]]) * sc
+                    t = float(rng.choice([0.25, 0.5, 0.75, 1.5, 3.0, -0.5, -2.0, 0.0, 1.0]))
+                    x = v[0] + t * (v[rng.choice([1, 2])] - v[0])
+                else:  # zero-area mask
+                    v = np.array([[0, 0, 0], [1, 2, -1], [2, 4, -2]]) * sc if rng.random() < 0.7 else np.array([[1, 2, 3], [1, 2, 3], [0, 1, 0]]) * sc
+                    x = nps.uniform(-1, 1, 3) * sc
                 names = [[f"v{a}{c}" for c in "xyz"] for a in range(3)]
                 order = sum(names, []) + ["px", "py", "pz", "x", "y", "z"]
                 vals = [*v.ravel(), *p, *x]
